@@ -398,6 +398,43 @@ const DIGEST *DIGEST_sha512(void)
 }
 
 
+// SHA-512/224 and SHA-512/256 have their own initial hash values (FIPS 180-4, 5.3.6)
+static int sha512_224_digest_init(DIGEST_CTX *ctx)
+{
+	if (!ctx) {
+		error_print();
+		return -1;
+	}
+	sha512_init(&ctx->u.sha512_ctx);
+	ctx->u.sha512_ctx.state[0] = 0x8c3d37c819544da2;
+	ctx->u.sha512_ctx.state[1] = 0x73e1996689dcd4d6;
+	ctx->u.sha512_ctx.state[2] = 0x1dfab7ae32ff9c82;
+	ctx->u.sha512_ctx.state[3] = 0x679dd514582f9fcf;
+	ctx->u.sha512_ctx.state[4] = 0x0f6d2b697bd44da8;
+	ctx->u.sha512_ctx.state[5] = 0x77e36f7304c48942;
+	ctx->u.sha512_ctx.state[6] = 0x3f9d85a86a1d36c8;
+	ctx->u.sha512_ctx.state[7] = 0x1112e6ad91d692a1;
+	return 1;
+}
+
+static int sha512_256_digest_init(DIGEST_CTX *ctx)
+{
+	if (!ctx) {
+		error_print();
+		return -1;
+	}
+	sha512_init(&ctx->u.sha512_ctx);
+	ctx->u.sha512_ctx.state[0] = 0x22312194fc2bf72c;
+	ctx->u.sha512_ctx.state[1] = 0x9f555fa3c84c64c2;
+	ctx->u.sha512_ctx.state[2] = 0x2393b86b6f53b151;
+	ctx->u.sha512_ctx.state[3] = 0x963877195940eabd;
+	ctx->u.sha512_ctx.state[4] = 0x96283ee2a88effe3;
+	ctx->u.sha512_ctx.state[5] = 0xbe5e1e2553863992;
+	ctx->u.sha512_ctx.state[6] = 0x2b0199fc2c85b8aa;
+	ctx->u.sha512_ctx.state[7] = 0x0eb72ddc81c52ca2;
+	return 1;
+}
+
 static int sha512_224_digest_finish(DIGEST_CTX *ctx, uint8_t *dgst)
 {
 	uint8_t buf[SHA512_DIGEST_SIZE];
@@ -416,7 +453,7 @@ static const DIGEST sha512_224_digest_object = {
 	SHA224_DIGEST_SIZE,
 	SHA512_BLOCK_SIZE,
 	sizeof(SHA512_CTX),
-	sha512_digest_init,
+	sha512_224_digest_init,
 	sha512_digest_update,
 	sha512_224_digest_finish,
 };
@@ -446,7 +483,7 @@ static const DIGEST sha512_256_digest_object = {
 	SHA256_DIGEST_SIZE,
 	SHA512_BLOCK_SIZE,
 	sizeof(SHA512_CTX),
-	sha512_digest_init,
+	sha512_256_digest_init,
 	sha512_digest_update,
 	sha512_256_digest_finish,
 };
